@@ -1076,12 +1076,13 @@ class Bus(ContainerBase, StoreClientMixin): # not a ContainerOperand
                 name=self._series.name,
                 )
 
-        series = cfs.sort_values(
+        order = cfs.sort_values(
                 ascending=ascending,
                 kind=kind,
                 key=key,
-                )
-
+                ).index
+        # derive from the Bus's own Series (never more than max_persist loaded), in the sorted order
+        series = self._series.reindex(order, own_index=True)
         return self._derive(series)
 
 
